@@ -236,9 +236,9 @@ func main() {
 		replay(o, cfg.Replay)
 		return
 	}
-	sz := sizes{inputs: 24, progs: 2400, extra: 2, cli: 120, workers: 4, batchShare: 60}
+	sz := sizes{inputs: 24, progs: 1500, extra: 2, cli: 100, workers: 4, batchShare: 60}
 	if cfg.Thorough() {
-		sz = sizes{inputs: 64, progs: 16000, extra: 2, cli: 600, workers: 4, batchShare: 60}
+		sz = sizes{inputs: 64, progs: 12000, extra: 2, cli: 500, workers: 4, batchShare: 60}
 	}
 	if s := os.Getenv("VERIF_C07_PROGS"); s != "" {
 		sz.progs, _ = strconv.Atoi(s)
@@ -311,8 +311,13 @@ func generate(o *hlib.Out, cfg hlib.Config, sz sizes) {
 		mode string
 	}
 	work := make([][]item, sz.inputs)
+	excludedFromjson := 0
 	for pi, p := range progs {
 		for k, ii := range p.inputs {
+			if refAppliesFromjsonToNonString(p.text, inputs[ii]) {
+				excludedFromjson++
+				continue
+			}
 			mode := "d"
 			if p.feats["noncompiling"] {
 				mode = "d"
@@ -533,6 +538,7 @@ func generate(o *hlib.Out, cfg hlib.Config, sz sizes) {
 	o.Stat("generated_not_compiling_in_reference", nonCompiling)
 	o.Stat("generated_dropped_long_or_duplicate", dropped)
 	o.Stat("inputs", len(inputs))
+	o.Stat("pairs_not_generated_fromjson_of_nonstring", excludedFromjson)
 	o.Stat("batches", int(batches))
 	o.Stat("batches_rerun_one_by_one", int(fallbackBatches))
 	o.Stat("ms_generate", int(tGen.Milliseconds()))
@@ -604,6 +610,11 @@ func replay(o *hlib.Out, path string) {
 		}
 		if err := f.setIn(in); err != nil {
 			o.Verdict("BADOP", l+" :: cannot set $in: "+err.Error())
+			continue
+		}
+		if refAppliesFromjsonToNonString(prog, in) {
+			o.N++
+			o.Verdict("OK", mode+" "+inJSON+sepInProg+prog+" ;;outside the generated domain: the reference applies fromjson to a non-string")
 			continue
 		}
 		var ok bool
